@@ -136,7 +136,7 @@ static inline std::vector<ScnSpec> scenario_specs(int size) {
     std::vector<ScnSpec> v; auto add = [&](int k, const Str &a, const Str &b, int p1, int p2) { ScnSpec s; s.kind = k; s.a = a; s.b = b; s.p1 = p1; s.p2 = p2; v.push_back(s); };
     std::vector<Str> shape = shape_list(size >= 3 ? 2 : size >= 2 ? 1 : 0);
     if (size == 0) { std::vector<Str> t; for (size_t i = 0; i < shape.size(); i += 7) t.push_back(shape[i]); shape = t; }
-    std::vector<Str> extra = { "a/b/c", "s://u:p@[::1]:80/a/./b/../c?q#f", "//[v1.x]/%41", "s://1.2.3.4", "S://H/%7e/../x", "./a:b", "/.//a", "a/../b:c", ".//b", "//1%2E2.3.4/a", "S://u@%31.2.3.4:8/%41?q" };
+    std::vector<Str> extra = { "a/b/c", "s://u:p@[::1]:80/a/./b/../c?q#f", "//[v1.x]/%41", "s://1.2.3.4", "S://H/%7e/../x", "./a:b", "/.//a", "a/../b:c", ".//b", "//1%2E2.3.4/a", "S://u@%31.2.3.4:8/%41?q", "//1.2.3.4:%41@h", "//1.2.3.4:21%41@5.6.7.8/p", "//1.2.3.4:1@[::1]", "s://u:12%34@[v1.a]" };
     shape.insert(shape.end(), extra.begin(), extra.end());
     for (auto &t : shape) {
         for (int e = 0; e < 3; e++) add(K_PARSE, t, "", e, 0);
